@@ -10,8 +10,8 @@ _OUT = ("switch_ call-shape normalisation in front of wire_switch (operator fron
         "re-pointed (REF) inputs; pause/resume")
 reg("C12",
     name="C12_switch", src=_SRC, anchor_files=_ANCH,
-    quick=dict(defs=dict(CONFIGS="{0,4},{1,3}", RELOADS=2, DEFAULTS=2), symx=dict(shards=16, **{"max-wall": 900})),
-    thorough=dict(defs=dict(CONFIGS="{0,5},{1,4}", RELOADS=2, DEFAULTS=2), symx=dict(shards=16, **{"max-wall": 3000, "shard-depth": 8})),
+    quick=dict(defs=dict(CONFIGS="{0,4},{1,3}", RELOADS=2, DEFAULTS=2), symx=dict(shards=16, **{"max-wall": 900, "query-timeout-ms": 120000})),
+    thorough=dict(defs=dict(CONFIGS="{0,5},{1,4}", RELOADS=2, DEFAULTS=2), symx=dict(shards=16, **{"max-wall": 3000, "shard-depth": 8, "query-timeout-ms": 120000})),
     reach=["end", "switched", "three_switches", "returned_to_earlier_key", "switch_and_input_tick_same_cycle", "switched_away_with_pending_timer",
            "reload_on_same_key", "same_key_tick_without_reload", "default_branch_selected", "branch_timer_fired", "selected_before_input_valid",
            "unmatched_key_throws"],
